@@ -49,9 +49,9 @@ Proof.
 Qed.
 Print Assumptions C01_collect_sound.
 
-(* Every included occurrence reached without a named spread is collected: a response key is
-   present when one of its occurrences is included.  (Through named spreads the visited-set
-   argument is not proved yet; that part is covered by the correspondence only.) *)
+(* Every included occurrence reached without a named spread is collected, from any accumulator and
+   visited set (the general statement, through named spreads and fragment cycles, is
+   C01_collect_complete / C01_key_present_iff at the end of this file). *)
 Theorem C01_collect_complete_partial : forall fuel S D vars obj sels visited g g' v',
   collect fuel S D vars obj sels visited g = Some (g', v') ->
   forall k o, OccursDirect S vars obj sels k o -> in_group g' k o.
